@@ -534,3 +534,18 @@ func init() {
 		Outside:  []string{"outside: revision wrap-around at 2^64; concurrent writers on other tables (sequential histories only; table revisions are per-table state under the table lock, see C05)"},
 	})
 }
+
+func init() {
+	c04 := func(p map[string]int, diff int) HarnessRun {
+		return HarnessRun{Entry: "VerifC04Indexes", Params: p, Covers: []string{"C04.end"}, DiffRuns: diff}
+	}
+	ks := HarnessRun{Entry: "VerifC04KeySet", Covers: []string{"C04.keyset.end"}, DiffRuns: 30}
+	reg(&CheckSpec{
+		ID: "C04", PkgDir: "statedb",
+		Quick:    []HarnessRun{c04(map[string]int{"N": 1, "L": 1}, 40), c04(map[string]int{"N": 1, "PRE": 1, "NILKEYS": 0, "NTAGSMAX": 1}, 20), ks},
+		Thorough: []HarnessRun{c04(map[string]int{"N": 1, "L": 1}, 40), c04(map[string]int{"N": 1, "PRE": 1, "NILKEYS": 0}, 40), c04(map[string]int{"N": 2, "NTAGSMAX": 1, "NILKEYS": 0, "MIDCOMMIT": 0}, 40), c04(map[string]int{"N": 1, "PRE": 2, "NTAGSMAX": 1}, 20), ks},
+		Known: []KnownProbe{},
+		Outside: []string{"outside: queries through the LPM index at DB level (the trie semantics are C13's subject, LPM index persistence C01's); AnyTable string-keyed queries; key sets with more than 2 keys; more than N symbolic writes after PRE concrete objects; keys longer than L",
+			"the order assertion is on the stored index keys (bytewise ascending), which by C18 is (index key, primary key) order"},
+	})
+}
